@@ -759,7 +759,7 @@ theorem ofFen_ok_loose {s : List Char} {g : Game} (h : Game.ofFen s = .ok g) :
 
 /-! ## 4. the caches of an imported game -/
 
-theorem foldr_xor_set : ∀ (l : List UInt64) (i : Nat) (x : UInt64) (h : i < l.length),
+theorem foldr_xor_set_fr : ∀ (l : List UInt64) (i : Nat) (x : UInt64) (h : i < l.length),
     (l.set i x).foldr (· ^^^ ·) 0 = l.foldr (· ^^^ ·) 0 ^^^ l[i] ^^^ x := by
   intro l
   induction l with
@@ -777,7 +777,7 @@ theorem foldr_xor_set : ∀ (l : List UInt64) (i : Nat) (x : UInt64) (h : i < l.
       rw [ih i x (by simpa using h)]
       ac_rfl
 
-theorem foldr_add_set : ∀ (l : List Int) (i : Nat) (x : Int) (h : i < l.length),
+theorem foldr_add_set_fr : ∀ (l : List Int) (i : Nat) (x : Int) (h : i < l.length),
     (l.set i x).foldr (· + ·) 0 = l.foldr (· + ·) 0 - l[i] + x := by
   intro l
   induction l with
@@ -793,16 +793,16 @@ theorem foldr_add_set : ∀ (l : List Int) (i : Nat) (x : Int) (h : i < l.length
       rw [ih i x (by simpa using h)]
       omega
 
-theorem xorAll_set (v : Vector UInt64 64) (i : Nat) (x : UInt64) (h : i < 64) :
+theorem xorAll_set_fr (v : Vector UInt64 64) (i : Nat) (x : UInt64) (h : i < 64) :
     xorAll (v.set i x h) = xorAll v ^^^ v[i] ^^^ x := by
   unfold xorAll
-  rw [Vector.toList_set, foldr_xor_set _ _ _ (by simpa using h)]
+  rw [Vector.toList_set, foldr_xor_set_fr _ _ _ (by simpa using h)]
   simp
 
-theorem sumAll_set (v : Vector Int 64) (i : Nat) (x : Int) (h : i < 64) :
+theorem sumAll_set_fr (v : Vector Int 64) (i : Nat) (x : Int) (h : i < 64) :
     sumAll (v.set i x h) = sumAll v - v[i] + x := by
   unfold sumAll
-  rw [Vector.toList_set, foldr_add_set _ _ _ (by simpa using h)]
+  rw [Vector.toList_set, foldr_add_set_fr _ _ _ (by simpa using h)]
   simp
 
 /-- cache invariant of the scanner standing at `(r, c)` -/
@@ -952,11 +952,11 @@ theorem cinv_putPiece {s : Scan} {r c : Nat} (inv : CInv s r c) (hc : c < 8) (pc
     · have : ¬ r * 8 + c = i := fun h => hi' h.symm
       simp [hi', this]
   · simp only [Scan.putPiece, markKing_hash, markKing_pastHashes]
-    rw [xorAll_set, inv.hash]
+    rw [xorAll_set_fr, inv.hash]
     simp only [hidx, u1]
     simp
   · simp only [Scan.putPiece, markKing_score, markKing_pastScores]
-    rw [sumAll_set, inv.score]
+    rw [sumAll_set_fr, inv.score]
     simp only [hidx, u2]
     omega
   · simp only [Scan.putPiece, markKing_wking, hp]
@@ -993,7 +993,7 @@ theorem cinv_emptyStep {s : Scan} {r c : Nat} (inv : CInv s r c) (hc : c < 8)
     · subst hi'; simp only [if_true, placeScore]; exact u2
     · simp only [hi', if_false]; rfl
   · simp only [Scan.emptyStep]
-    rw [xorAll_set, inv.hash]
+    rw [xorAll_set_fr, inv.hash]
     simp only [hidx, u1]
     simp
   · exact inv.score
@@ -1080,7 +1080,7 @@ theorem setPosition_res (g : Game) (p : Pos) (np : Option Piece) :
   by_cases h : p.idx < 64
   · simp only [h, dite_true]
     unfold Game.resHash Game.resScore
-    simp only [xorAll_set, sumAll_set]
+    simp only [xorAll_set_fr, sumAll_set_fr]
     constructor
     · generalize g.hash = a
       generalize g.pastHashes[p.idx] = b
